@@ -222,8 +222,8 @@ class MessengerAdapter(object):
     tmem = sorted(w.cidx(c) for c in tr._connections) if tr is not None else []
     shut = []
     for idx, sock in sorted(w.socks.items()):
-      if sock.shut > self.shut_seen.get(idx, 0):
-        shut.append(idx)
+      if sock.shut and not self.shut_seen.get(idx, 0):      # shut down for the first time (a repeated shutdown() of
+        shut.append(idx)                                    # a closed connection's socket is not an observation)
       self.shut_seen[idx] = sock.shut
     if self.kind == "mem":
       lsn = "listening"
